@@ -335,8 +335,10 @@ func runC19Sel(x *kit.Ctx, cs C19Case) {
 			x.Eval(1)
 			tag := "get-dag-selector:v" + ver
 			what := fmt.Sprintf("DAG %s children %v, start %d, selector %s = %s", cs.Arg, d.kids, start, sl.name, sl.json)
-			if skipped && ver == "1" && r.Exit != 0 {
-				x.Outcome("get-dag-v1-missing-link-refused") // SelectiveCar has no notion of skipping an absent block
+			if skipped && (ver == "1" || !strict) && r.Exit != 0 {
+				// SelectiveCar has no notion of skipping an absent block; that the CARv2 writer skips one unless
+				// --strict is the flag's usage text, not the statement: a refusal emits nothing
+				x.Outcome("get-dag-v" + ver + "-missing-link-refused")
 				continue
 			}
 			if skipped && strict && ver == "2" {
@@ -377,7 +379,9 @@ func runC19Sel(x *kit.Ctx, cs C19Case) {
 				if idx(sortedInts(got)) != idx(sortedInts(want)) && idx(sortedInts(got)) != idx(sortedInts(alt)) {
 					x.Fail("c19:get-dag-selector-blocks:"+tag, "get-dag output holds nodes %v; the library's walk of the same selector loads %v (a walk that follows each link at its first encounter only: %v) (%s)", got, want, firstVisit(onceRef), what)
 				} else {
-					x.Fail("c19:get-dag-selector-order:"+tag, "get-dag output holds nodes %v; the library's walk of the same selector loads them in the order %v (%s)", got, want, what)
+					// same blocks, each as often as the walk loads them, in another order: the statement fixes the
+					// order for filter, list and concat only
+					x.Outcome("beyond-statement:get-dag-order:" + tag)
 				}
 			}
 			if !sameRoots(fl.Payload.Header.Roots, [][]byte{d.cids[start]}) {
